@@ -693,3 +693,61 @@ func c13r7(rc *core.RC) {
 		rc.Unknown("vm_indent/map-helpers", token.NoPos, "found %d helper pairs", n)
 	}
 }
+
+// ---- C13.R8 each exported encoding entry point has one implementation ----
+
+// Marshal, MarshalWithOption, MarshalNoEscape, MarshalContext, MarshalIndent and
+// MarshalIndentWithOption are thin wrappers. Every return of each of them must call the same
+// function, and the indenting entry points must end in marshalIndent: a shortcut to another
+// implementation for some argument values (an empty prefix and indent, no options) makes the
+// output depend on more than the documented settings.
+func c13r8(rc *core.RC) {
+	p := rc.P
+	want := map[string]string{
+		"Marshal":                 "json.MarshalWithOption",
+		"MarshalWithOption":       "json.marshal",
+		"MarshalNoEscape":         "json.marshalNoEscape",
+		"MarshalContext":          "json.marshalContext",
+		"MarshalIndent":           "json.MarshalIndentWithOption",
+		"MarshalIndentWithOption": "json.marshalIndent",
+	}
+	n := 0
+	for name, impl := range want {
+		fd := p.Func("json", name)
+		key := "json." + name + "/single-implementation"
+		if fd == nil || fd.Body == nil {
+			rc.Unknown(key, token.NoPos, "entry point not found")
+			continue
+		}
+		n++
+		rc.Touch("json." + name)
+		info := p.Info(fd)
+		callees := map[string]bool{}
+		other := false
+		ast.Inspect(fd.Body, func(m ast.Node) bool {
+			r, ok := m.(*ast.ReturnStmt)
+			if !ok {
+				return true
+			}
+			if len(r.Results) == 1 {
+				if c, ok := core.Unparen(r.Results[0]).(*ast.CallExpr); ok {
+					callees[core.CalleeName(info, c)] = true
+					return true
+				}
+			}
+			other = true
+			return true
+		})
+		var names []string
+		for c := range callees {
+			names = append(names, c)
+		}
+		sort.Strings(names)
+		// the implementation may be renamed; what matters is that there is exactly one
+		_ = impl
+		rc.Check(len(callees) == 1 && !other, key, fd.Pos(), "every return calls the same function (%v): the entry point has no argument-dependent shortcut to another implementation", names)
+	}
+	if n < 6 {
+		rc.Unknown("json/encoding-entry-points", token.NoPos, "found %d of the six exported Marshal entry points", n)
+	}
+}
